@@ -52,7 +52,76 @@ fn tmp_must_drain(ctx: &Ctx) -> Result<(), String> {
     }
 }
 
-fn c14_after(ctx: &Ctx, prog: &Program, i: usize, _r: &StepResult, _m: &Model, st: &mut Stats) -> Result<(), String> {
+/// Every directory and file under `index-v5` (files with their length); `None` = no such directory.
+fn index_tree(ctx: &Ctx) -> Option<Vec<(String, u64)>> {
+    fn rec(base: &std::path::Path, dir: &std::path::Path, out: &mut Vec<(String, u64)>) {
+        if let Ok(rd) = std::fs::read_dir(dir) {
+            for e in rd.flatten() {
+                let p = e.path();
+                let rel = p.strip_prefix(base).unwrap().to_string_lossy().to_string();
+                match std::fs::symlink_metadata(&p) {
+                    Ok(m) if m.is_dir() => {
+                        out.push((rel + "/", 0));
+                        rec(base, &p, out);
+                    }
+                    Ok(m) => out.push((rel, m.len())),
+                    Err(_) => {}
+                }
+            }
+        }
+    }
+    let root = ctx.cache.join("index-v5");
+    if !root.is_dir() {
+        return None;
+    }
+    let mut out = Vec::new();
+    rec(&root, &root, &mut out);
+    out.sort();
+    Some(out)
+}
+
+thread_local! {
+    /// (cache directory, index tree, raw listing) as they were after the previous step of the
+    /// program this worker is running
+    static C14_PREV: std::cell::RefCell<Option<(std::path::PathBuf, Option<Vec<(String, u64)>>, Out)>> = const { std::cell::RefCell::new(None) };
+}
+
+fn c14_after(ctx: &Ctx, prog: &Program, i: usize, r: &StepResult, _m: &Model, st: &mut Stats) -> Result<(), String> {
+    // a writer that was dropped, a commit that was rejected, a write by address: the index area
+    // (directories included) and the raw listing are exactly what they were before the step
+    let tree = index_tree(ctx);
+    let listing = crate::exec::run_step(ctx, &Step { op: Op::List, fl: Fl::Sync }).out;
+    let leaves_index_alone = match &prog.steps[i].op {
+        Op::Abandon { at: AbandonAt::CommitDropped(_) | AbandonAt::CancelThenCommit(_), .. } => false,
+        Op::Abandon { .. } => true,
+        Op::Write(w) => (r.out.is_err() && w.interfere == Interfere::None) || w.key.is_none(),
+        _ => false,
+    };
+    let prev = C14_PREV.with(|p| p.borrow_mut().take());
+    let prev = match prev {
+        Some((dir, t, l)) if i > 0 && dir == ctx.cache => Some((t, l)),
+        // the first step starts from an empty cache directory
+        _ if i == 0 => Some((None, Out::List(vec![], 1))),
+        _ => None,
+    };
+    if let (true, Some((t0, l0))) = (leaves_index_alone, prev) {
+        st.eval(1);
+        if t0 != tree {
+            let before: std::collections::BTreeSet<_> = t0.clone().unwrap_or_default().into_iter().collect();
+            let after: std::collections::BTreeSet<_> = tree.clone().unwrap_or_default().into_iter().collect();
+            return Err(format!(
+                "the index area changed although the step committed nothing under a key: index-v5 {} -> {}; appeared {:?}, gone {:?}",
+                if t0.is_some() { "present" } else { "absent" },
+                if tree.is_some() { "present" } else { "absent" },
+                after.difference(&before).take(4).collect::<Vec<_>>(),
+                before.difference(&after).take(4).collect::<Vec<_>>()
+            ));
+        }
+        if l0 != listing {
+            return Err(format!("the listing changed although the step committed nothing under a key: {} -> {}", l0.short(), listing.short()));
+        }
+    }
+    C14_PREV.with(|p| *p.borrow_mut() = Some((ctx.cache.clone(), tree, listing)));
     // with only synchronous steps so far nothing runs in the background: the temp area
     // must be empty after every step
     if prog.steps[..=i].iter().all(|s| s.fl == Fl::Sync || s.op.is_harness_side()) {
@@ -231,7 +300,7 @@ pub fn c14() -> ProgEngine {
         rule: "programs interleaving successful keyed / by-address writes, commits rejected by the size or the integrity check, and writers abandoned right after \
                creation, after j chunks, mid-flight (async: the write future is polled once with a no-op waker and dropped while pending), after flush, or (async) while the commit itself is in flight (its future polled 1-4 times and dropped: the key shows the old or the new entry, content valid before stays) — sync and \
                async, memory-mapped and plain, all sizes; oracle: after EVERY step lookups of every key, the listing and every address equal the reference model (an \
-               abandoned or rejected write changes nothing; data is reachable under a key only after a commit that returned Ok); the temp area is empty after every \
+               abandoned or rejected write changes nothing; data is reachable under a key only after a commit that returned Ok); an abandoned writer, a rejected commit and a write by address leave the index area (directories included) and the raw listing exactly as they were; the temp area is empty after every \
                step of a purely synchronous prefix and, at the end, after quiescence (tokio: the runtime is dropped, which joins its blocking pool; async-std: polled, \
                then two snapshots 1 s apart — an entry present in both is a leak). Non-trivial = >=1 byte accepted before abandonment, or mid-flight, or a rejected \
                commit; distinct = distinct program",
